@@ -60,6 +60,9 @@ func (env *Env) evalLoc(e *E) Loc {
 				return Loc{Kind: "map", Base: env.term(m), MapT: m.T.Underlying().(*types.Map)}
 			case "closed":
 				return Loc{Kind: "chan", Base: env.term(env.eval(e.Args[1]))}
+			case "anycalls":
+				// the ghost call counters of every function value (a callee that invokes a callback chosen at run time)
+				return Loc{Kind: "allfncalls"}
 			case "calls":
 				return Loc{Kind: "fncalls", Base: env.term(env.eval(e.Args[1]))}
 			case "armed":
@@ -147,9 +150,10 @@ func hasFieldDeep(env *Env, t types.Type, name string) bool {
 // heapNames returns the heap arrays (with the base at which they are
 // touched) that a location covers.
 type heapTarget struct {
-	Name string
-	Sort Sort // sort of the array value (per object)
-	Base Term
+	Name  string
+	Sort  Sort // sort of the array value (per object)
+	Base  Term
+	Whole bool // every index of the array, not only Base
 }
 
 func (env *Env) locTargets(l Loc) []heapTarget {
@@ -163,43 +167,46 @@ func (env *Env) locTargets(l Loc) []heapTarget {
 			n := leafHeapName(l.P.Root, path)
 			switch so {
 			case "SyncMap":
-				out = append(out, heapTarget{strings.TrimSuffix(n, "|") + "#dom|", SArray(SIface, SBool), l.P.Base},
-					heapTarget{strings.TrimSuffix(n, "|") + "#val|", SArray(SIface, SIface), l.P.Base})
+				out = append(out, heapTarget{strings.TrimSuffix(n, "|") + "#dom|", SArray(SIface, SBool), l.P.Base, false},
+					heapTarget{strings.TrimSuffix(n, "|") + "#val|", SArray(SIface, SIface), l.P.Base, false})
 			case "BytesBuf":
-				out = append(out, heapTarget{strings.TrimSuffix(n, "|") + "#base|", SRef, l.P.Base},
-					heapTarget{strings.TrimSuffix(n, "|") + "#off|", SBV(64), l.P.Base},
-					heapTarget{strings.TrimSuffix(n, "|") + "#len|", SBV(64), l.P.Base})
+				out = append(out, heapTarget{strings.TrimSuffix(n, "|") + "#base|", SRef, l.P.Base, false},
+					heapTarget{strings.TrimSuffix(n, "|") + "#off|", SBV(64), l.P.Base, false},
+					heapTarget{strings.TrimSuffix(n, "|") + "#len|", SBV(64), l.P.Base, false})
 			default:
-				out = append(out, heapTarget{n, so, l.P.Base})
+				out = append(out, heapTarget{n, so, l.P.Base, false})
 			}
 		}
 	case "syncmap":
 		n := leafHeapName(l.P.Root, l.P.Path)
-		out = append(out, heapTarget{strings.TrimSuffix(n, "|") + "#dom|", SArray(SIface, SBool), l.P.Base},
-			heapTarget{strings.TrimSuffix(n, "|") + "#val|", SArray(SIface, SIface), l.P.Base})
+		out = append(out, heapTarget{strings.TrimSuffix(n, "|") + "#dom|", SArray(SIface, SBool), l.P.Base, false},
+			heapTarget{strings.TrimSuffix(n, "|") + "#val|", SArray(SIface, SIface), l.P.Base, false})
 	case "ghost":
 		isMap, ks, vs, sc, _ := env.ghostSorts(l.GF)
 		n := ghostHeapName(l.GF)
 		if !isMap {
-			out = append(out, heapTarget{n, sc, l.Base})
+			out = append(out, heapTarget{n, sc, l.Base, false})
 		} else {
-			out = append(out, heapTarget{strings.TrimSuffix(n, "|") + "#dom|", SArray(ks, SBool), l.Base})
+			out = append(out, heapTarget{strings.TrimSuffix(n, "|") + "#dom|", SArray(ks, SBool), l.Base, false})
 			if vs != "" {
-				out = append(out, heapTarget{strings.TrimSuffix(n, "|") + "#val|", SArray(ks, vs), l.Base})
+				out = append(out, heapTarget{strings.TrimSuffix(n, "|") + "#val|", SArray(ks, vs), l.Base, false})
 			}
 		}
 	case "mem":
-		out = append(out, heapTarget{memName(l.Elem), SArray(SBV(64), l.Elem), l.Base})
+		out = append(out, heapTarget{memName(l.Elem), SArray(SBV(64), l.Elem), l.Base, false})
 	case "map":
 		dn, vn := mapHeapNames(l.MapT)
-		out = append(out, heapTarget{dn, SArray(sortOf(l.MapT.Key()), SBool), l.Base},
-			heapTarget{vn, SArray(sortOf(l.MapT.Key()), sortOf(l.MapT.Elem())), l.Base})
+		out = append(out, heapTarget{dn, SArray(sortOf(l.MapT.Key()), SBool), l.Base, false},
+			heapTarget{vn, SArray(sortOf(l.MapT.Key()), sortOf(l.MapT.Elem())), l.Base, false})
 	case "chan":
-		out = append(out, heapTarget{"|Chan:closed|", SBool, l.Base})
+		out = append(out, heapTarget{"|Chan:closed|", SBool, l.Base, false})
 	case "fncalls":
-		out = append(out, heapTarget{"|Fn:calls|", SBV(64), l.Base}, heapTarget{"|Fn:lastarg|", SIface, l.Base})
+		out = append(out, heapTarget{"|Fn:calls|", SBV(64), l.Base, false}, heapTarget{"|Fn:lastarg|", SIface, l.Base, false})
+	case "allfncalls":
+		// Whole: the entire array is havocked at a call site (Base unused)
+		out = append(out, heapTarget{Name: "|Fn:calls|", Sort: SBV(64), Whole: true}, heapTarget{Name: "|Fn:lastarg|", Sort: SIface, Whole: true})
 	case "timer":
-		out = append(out, heapTarget{"|Timer:armed|", SBool, l.Base})
+		out = append(out, heapTarget{"|Timer:armed|", SBool, l.Base, false})
 	}
 	return out
 }
@@ -282,10 +289,21 @@ func (ex *Exec) applyContract(s *State, instr ssa.Instruction, f *ssa.Function, 
 		}
 		ex.usedAssume["assigns * on "+con.Key+": heap arrays not yet touched on the path are assumed unchanged"] = true
 	}
+	// every location of the assigns clause denotes a location of the state at
+	// the call (`assigns t.timer, armed(t.timer)`: the timer held before the
+	// call): evaluate them all before anything is havocked
+	var assignTargets []heapTarget
 	for _, a := range con.Assigns {
 		loc := env.evalLoc(a.Expr)
-		for _, t := range env.locTargets(loc) {
+		assignTargets = append(assignTargets, env.locTargets(loc)...)
+	}
+	for range []int{0} {
+		for _, t := range assignTargets {
 			arr := s.heapCur(t.Name, SArray(SRef, t.Sort))
+			if t.Whole {
+				s.heapSet(t.Name, s.declare(ex.g.fresh("hv"), SArray(SRef, t.Sort)))
+				continue
+			}
 			nv := s.declare(ex.g.fresh("hv"), t.Sort)
 			// whatever the callee stored refers to objects that exist when it returns
 			switch t.Sort {
